@@ -38,6 +38,9 @@ ASSUMPTIONS = ["two different digests mean two different keys; hash collisions a
 
 SPECS = [
     {'family': 'cf1d', 'ny': 2, 'nx': 3, 'bounds': 'var'},
+    {'family': 'cf1d', 'ny': 2, 'nx': 3, 'bounds': 'coord', 'names': 'other'},
+    # geometry variables larger than 1 MiB: edits far from the start of the array
+    {'family': 'cf2d', 'ny': 420, 'nx': 400, 'bounds': 'derived', 'nt': 1, 'nk': 1, 'big': True},
     {'family': 'cf2d', 'ny': 2, 'nx': 3, 'geometry': 'skew'},
     {'family': 'shoc_simple', 'ny': 2, 'nx': 2},
     {'family': 'shoc_standard', 'nj': 2, 'ni': 2},
@@ -53,7 +56,7 @@ def cases(tier):
     out = [{'part': 'table', 'spec': spec} for spec in SPECS]
     out.append({'part': 'seeds'})
     depth = 3 if tier == 'quick' else 4
-    for spec in SPECS:
+    for spec in [spec for spec in SPECS if not spec.get('big')]:
         for regime in ('memory', 'file'):
             for first in range(len(HISTORY_OPS)):
                 out.append({'part': 'history', 'spec': spec, 'regime': regime, 'depth': depth, 'first': first})
@@ -99,18 +102,24 @@ def variants(spec):
     if changed:
         yield 'fortran-memory-order', 'same', ds
     for name in names:
-        ds = fresh()
-        var = ds[name]
-        if var.ndim == 0:
-            continue
-        values = var.values.copy()
-        flat = values.reshape(-1)
-        index = int(np.flatnonzero(~np.isnan(flat.astype('float64')))[0])
-        flat[index] = flat[index] + 1
-        ds[name] = (var.dims, values, var.attrs)
-        if name in fresh().coords:
-            ds = ds.set_coords(name)
-        yield f'one-value:{name}', 'differ', ds
+        for which in ('one-value', 'last-value'):
+            ds = fresh()
+            var = ds[name]
+            if var.ndim == 0:
+                continue
+            values = var.values.copy()
+            flat = values.reshape(-1)
+            finite = np.flatnonzero(~np.isnan(flat.astype('float64')))
+            index = int(finite[0] if which == 'one-value' else finite[-1])
+            flat[index] = flat[index] + 1
+            was_coord = name in ds.coords
+            ds[name] = (var.dims, values, var.attrs)
+            if was_coord:
+                ds = ds.set_coords(name)
+            yield f'{which}:{name}', 'differ', ds
+    if spec.get('big'):
+        yield 'other-convention-class', 'differ-class', fresh()
+        return
     for name in names:
         base = fresh()
         if base[name].dtype == np.float64:
@@ -221,7 +230,7 @@ def run_seeds(case, rec):
             raise RuntimeError(f"C16 child (hash seed {seed}) failed: {err[-2000:]}")
         tables[seed] = json.loads(out.strip().splitlines()[-1])
     reference = tables['0']
-    in_process = {json.dumps(spec, sort_keys=True): key_table(spec) for spec in SPECS}
+    in_process = {json.dumps(spec, sort_keys=True): key_table(spec) for spec in SPECS if not spec.get('big')}
     for seed, table in list(tables.items()) + [('in-process', in_process)]:
         rec.nontrivial(seed)
         for spec_key, entries in reference.items():
@@ -313,4 +322,4 @@ def run_case(case):
 
 if __name__ == '__main__':
     env.import_emsarray()
-    print(json.dumps({json.dumps(spec, sort_keys=True): key_table(spec) for spec in SPECS}))
+    print(json.dumps({json.dumps(spec, sort_keys=True): key_table(spec) for spec in SPECS if not spec.get('big')}))
